@@ -1090,3 +1090,17 @@ func edgeImpliesMatch(pred, succ *ssa.BasicBlock, match func(string) bool) bool 
 	}
 	return false
 }
+
+// atomComparedWithConst: the left side of an edge fact "atom op <integer>" in fn whose text ends with suffix.
+func atomComparedWithConst(fn *ssa.Function, suffix string) string {
+	for _, ef := range edgeFacts(fn) {
+		l, _, r, ok := splitRel(ef.Fact)
+		if !ok || !strings.HasSuffix(l, suffix) || strings.HasPrefix(l, "(") {
+			continue
+		}
+		if _, err := strconv.ParseInt(r, 10, 64); err == nil {
+			return l
+		}
+	}
+	return ""
+}
